@@ -12,7 +12,11 @@ Three parts:
 * correspondence with the Lean model (HcipyVerif.Serial): the real ``to_dict`` trees are sent to
   the model, which decodes / re-encodes them, and runs its model of the FITS image paths
   (image HDU layout, tree left in the file, result of reading); plus ``ravel``/``unravel``
-  against ``np.ravel_multi_index``/``np.unravel_index``.
+  against ``np.ravel_multi_index``/``np.unravel_index``.  Round 4: the base class ``Grid`` and an
+  unregistered user subclass as grid kinds; the tree actually stored in every asdf file (and every grid
+  FITS file) against the model's ASDF layer (``file``: monitors the hypothesis ``AsdfFaithful``);
+  ``_weights is None`` before/after ``to_dict`` and the FITS write against the model's programs over the
+  object (``todict-st``); the real ``Field.__getstate__()`` against the model's ``getState`` (``getstate``).
 """
 import copy
 import os
@@ -67,6 +71,33 @@ def with_border(a, border):
     return out
 
 
+SYSTEMS = ['cartesian', 'polar', 'none', 'other']
+
+
+def _unregistered_cls():
+    """A user subclass of Grid whose coordinate system ('other') was never passed to
+    Grid._add_coordinate_system: written by asdf/fits, not readable (theorem grid_file_readable_iff)."""
+    cls = globals().get('_Unregistered')
+    if cls is None:
+        import hcipy
+        cls = type('_Unregistered', (hcipy.Grid,), {'_coordinate_system': 'other', '__module__': __name__})
+        globals()['_Unregistered'] = cls        # importable by name: default pickling works
+    return cls
+
+
+def grid_class(system):
+    import hcipy
+    if system == 'polar':
+        return hcipy.PolarGrid
+    if system == 'cartesian':
+        return hcipy.CartesianGrid
+    if system == 'none':
+        return hcipy.Grid
+    if system == 'other':
+        return _unregistered_cls()
+    raise MachineryError('system ' + str(system))
+
+
 def build_grid(spec):
     import hcipy
     cd = np.dtype(spec.get('cdtype', 'float64')).newbyteorder(spec.get('cborder') or '=')
@@ -94,7 +125,7 @@ def build_grid(spec):
         weights = [float(x) for x in w['v']]
     else:
         raise MachineryError('weights spec')
-    cls = hcipy.PolarGrid if spec['system'] == 'polar' else hcipy.CartesianGrid
+    cls = grid_class(spec['system'])
     g = cls(coords, weights)
     if spec.get('reversed'):
         g = g.reversed()        # separated/unstructured: the stored arrays become negative-stride views
@@ -103,8 +134,8 @@ def build_grid(spec):
             warnings.simplefilter('ignore')
             try:
                 g.weights       # materialise the automatic weights before writing
-            except IndexError:
-                pass            # separated axis of length one: no automatic weights (C11's business); stays None
+            except (IndexError, NotImplementedError):
+                pass            # separated axis of length one / base class Grid: no automatic weights; stays None
     return g
 
 
@@ -370,6 +401,11 @@ def gen_grid(rng, big=False, top_level=False):
     kind = ['regular', 'separated', 'unstructured'][int(rng.integers(0, 3))]
     ndim = int(rng.choice([1, 2, 2, 2, 3]))
     system = 'polar' if (ndim == 2 and rng.random() < 0.3) else 'cartesian'
+    r = rng.random()
+    if r < 0.1:
+        system = 'none'         # the base class Grid (D161)
+    elif r < 0.16 and top_level:
+        system = 'other'        # unregistered user subclass: written, not readable (stated assumption)
     top = 7 if big else 5
     spec = {'what': 'grid', 'kind': kind, 'system': system}
     cd = 'float64'
@@ -537,6 +573,17 @@ DIRECTED = [
     _b(_REG2, 'dense', border='>'), _b(_UNS2, 'dense', border='>'), _b(_REG2, 'dense', ts=[2], border='>', dt='float32'), _b(_REG2, 'sparse', border='>'),
     _b(_REG2, 'dense', layout='F'), _b(_UNS2, 'dense', layout='F'), _b(_REG2, 'dense', ts=[2], layout='F'),
     _b(_UNS2, 'dense', ts=[2], layout='P'), _b(_REG2, 'dense', layout='neg'), _b(_SEPR, 'dense', layout='strided'),
+    # round 4: the base class Grid (coordinate system 'none', D161) as grid, under fields and under mode bases
+    dict(_REG2, system='none'), dict(_SEPR, system='none', weights={'t': 'pyfloat', 'v': 2.0}),
+    dict(_UNS2, system='none', weights={'t': 'array', 'dtype': 'float64', 'v': [1.0, 2.0, 3.0, 4.0]}),
+    dict(_REG1, system='none', weights={'t': 'npfloat', 'v': 0.5}), dict(_REG2, system='none', mods=[['reverse']]),
+    _f(dict(_REG2, system='none'), [2]), _f(dict(_UNS2, system='none'), [2, 2]), _f(dict(_SEPR, system='none'), [], 'int16', layout='F'),
+    _b(dict(_REG2, system='none'), 'dense'), _b(dict(_REG2, system='none'), 'sparse'), _b(dict(_UNS2, system='none'), 'dense', ts=[2]),
+    # round 4: an unregistered user subclass (system 'other'): written by asdf/fits, read_grid raises KeyError; pickle works
+    dict(_REG2, system='other'), dict(_UNS2, system='other', weights={'t': 'pyfloat', 'v': 2.0}), dict(_SEPR, system='other'),
+    # round 4: NumPy-scalar weights (asdf stores a plain number: Grid.pyWeights in the model)
+    dict(_REG2, weights={'t': 'npfloat', 'v': 2.5}), _f(dict(_SEPR, weights={'t': 'npfloat', 'v': 0.75}), [2]),
+    _b(dict(_REG2, weights={'t': 'npfloat', 'v': 1.5}), 'sparse'),
 ]
 
 
@@ -677,6 +724,10 @@ def class_key(spec):
     what = spec['what']
     g = spec if what == 'grid' else spec['grid']
     gk = 'no-grid' if g is None else g['kind']
+    if g is not None and g['system'] == 'none':
+        gk = 'base-grid-' + gk
+    if g is not None and g['system'] == 'other':
+        gk = 'unregistered-' + gk
     if what == 'grid':
         return gk
     tensor = 'tensor' if spec['tshape'] else 'scalar'
@@ -687,6 +738,36 @@ def class_key(spec):
 
 def is_ragged(g):
     return g is not None and g['kind'] == 'separated' and len(set(len(a) for a in g['axes'])) > 1
+
+
+def raw_tree(fn, fmt, key):
+    """The tree the ASDF library hands back for a file hcipy wrote (what read_* passes to from_dict), encoded."""
+    import sys
+    import asdf
+    import hcipy  # noqa
+    hio = sys.modules['hcipy.util.io']
+    if fmt == 'asdf':
+        params = {'memmap': False} if hio.use_asdf_memmap else {'copy_arrays': True}
+        with asdf.open(fn, **params) as af:
+            return encode(af.tree[key])
+    from astropy.io import fits
+    with fits.open(fn, memmap=False) as hd:
+        return encode(hio._bintable_to_asdf(hd['ASDF']).tree[key])
+
+
+TREE_KEY = {'grid': 'grid', 'field': 'field', 'basis': 'mode_basis'}
+
+
+def getstate_obs(x):
+    """The real Field.__getstate__(): (shape, dtype tag, Fortran flag, bytes decoded with the dtype), and the memory
+    layout class of the data as NumPy reports it (input of the model)."""
+    a = np.asarray(x)
+    lay = 'f' if (a.flags.f_contiguous and not a.flags.c_contiguous) else 'c'
+    st = x.__getstate__()
+    shape, dt, isf, raw = st[1], st[2], st[3], st[4]
+    flat = np.frombuffer(raw, dtype=dt)
+    tag = dt.newbyteorder('=').str.lstrip('<>|=')
+    return lay, 'ok shape=[%s] dtype=%s fortran=%s raw=%s' % (','.join(str(int(n)) for n in shape), tag, 'T' if isf else 'F', enc_arr(flat))
 
 
 def round_trips(spec, tmpdir):
@@ -705,6 +786,18 @@ def round_trips(spec, tmpdir):
         ref = sig(x)
         snap0 = snapshot(what, x)
         ck = class_key(spec)
+        gspec = spec if what == 'grid' else spec['grid']
+        unreg = gspec is not None and gspec['system'] == 'other'
+        gobj = grid_of(what, x)
+
+        def wnone():
+            return '-' if gobj is None else ('N' if gobj._weights is None else 'S')
+
+        obs['wnone'] = {'before': wnone()}
+
+        def expected_refusal(e):
+            """An unregistered coordinate system cannot be read back (KeyError): the stated assumption, not a violation."""
+            return unreg and isinstance(e, KeyError)
 
         def compare(y, route, fam):
             d = first_difference(what, ref, sig(y))
@@ -747,6 +840,9 @@ def round_trips(spec, tmpdir):
                 with _NewStyle(spec.get('newstyle')):
                     nxt = read(fn)
             except Exception as e:  # noqa
+                if expected_refusal(e) and fam != 'pickle':
+                    obs.setdefault('chain_refused', []).append('%s:read-unregistered' % fmt)
+                    return None
                 fails.append(('%s:chain>%s:%s' % (what, fam, ck), 'chain %s: the write succeeded but reading back raised %s: %s' % (
                     route, type(e).__name__, str(e)[:100])))
                 return None
@@ -769,7 +865,9 @@ def round_trips(spec, tmpdir):
         except Exception as e:  # noqa
             obs['to_dict'] = ERRMAP.get(type(e).__name__, 'other:' + type(e).__name__)
         unchanged('to_dict', 'dict')
+        obs['wnone']['after_dict'] = wnone()
         if tree is not None:
+            obs['tree'] = encode(tree)
             try:
                 with _NewStyle(spec.get('newstyle')):
                     y = cls.from_dict(tree)
@@ -780,8 +878,13 @@ def round_trips(spec, tmpdir):
             except MachineryError:
                 raise
             except Exception as e:  # noqa
-                fails.append(('%s:dict:%s' % (what, ck), 'from_dict(to_dict(x)) raised %s: %s' % (type(e).__name__, str(e)[:100])))
+                obs['dict_err'] = ERRMAP.get(type(e).__name__, 'other:' + type(e).__name__)
+                if not expected_refusal(e):
+                    fails.append(('%s:dict:%s' % (what, ck), 'from_dict(to_dict(x)) raised %s: %s' % (type(e).__name__, str(e)[:100])))
             unchanged('from_dict', 'dict')
+        if what == 'field':
+            obs['getstate'] = getstate_obs(x)
+            unchanged('__getstate__', 'pickle')
         # pickle in memory, deepcopy
         for route, fn in (('pickle.dumps/loads', lambda o: pickle.loads(pickle.dumps(o))), ('deepcopy', copy.deepcopy)):
             try:
@@ -811,16 +914,23 @@ def round_trips(spec, tmpdir):
                 unchanged('a refused write_%s(%s)' % (what, fmt), fam)
                 continue
             unchanged('write_%s(%s)' % (what, fmt), fam)
+            if fmt == 'fits':
+                obs['wnone']['after_fits'] = wnone()
             if fam == 'fits':
                 from astropy.io import fits
                 with fits.open(fn, memmap=False) as hd:
                     o['img'] = 'N' if hd[0].data is None else enc_arr(np.array(hd[0].data))
+            if fmt == 'asdf' or (fam == 'fits' and what == 'grid'):
+                o['raw'] = raw_tree(fn, fam, TREE_KEY[what])
             try:
                 with _NewStyle(spec.get('newstyle')):
                     y = read(fn)
                 o['r'] = 'ok'
             except Exception as e:  # noqa
                 o['r'] = ERRMAP.get(type(e).__name__, 'other:' + type(e).__name__)
+                if expected_refusal(e) and fam != 'pickle':
+                    o['expected_refusal'] = True
+                    continue
                 fails.append(('%s:%s:%s' % (what, fam, ck), 'write_%s(%s) succeeded but reading the file back raised %s: %s' % (
                     what, fmt, type(e).__name__, str(e)[:100])))
                 continue
@@ -830,6 +940,9 @@ def round_trips(spec, tmpdir):
                 raise
             except Exception:  # noqa
                 o['out'] = None
+            if unreg and fam != 'pickle':
+                # the model's theorem (and the stated assumption) say such a file is not readable
+                obs['unregistered_read_ok'] = fmt
             if compare(y, 'write/read %s' % fmt, fam):
                 read_back[fmt] = y
             unchanged('read_%s(%s)' % (what, fmt), fam)
@@ -901,6 +1014,72 @@ def canon_scalars(s):
     return _NP_SCALAR.sub(lambda m: ('f' if m.group(1) == 'f' else 'i') + m.group(2), s)
 
 
+def _canon(s, i):
+    """parse one tree token of the wire format at s[i:], return (the same tree with dictionary keys sorted, end)"""
+    c = s[i]
+    if c in 'NTF':
+        return c, i + 1
+    if c in 'if':
+        j = i + 1
+        while j < len(s) and (s[j].isdigit() or s[j] in '-/'):
+            j += 1
+        return s[i:j], j
+    if c == 's':
+        j = i + 1
+        while j < len(s) and (s[j].isalnum() or s[j] == '_'):
+            j += 1
+        return s[i:j], j
+    if c == 'a':
+        j = s.index(']', i) + 1
+        return s[i:j], j
+    if c == 'l' and s[i + 1] == '[':
+        i += 2
+        items = []
+        if s[i] == ']':
+            return 'l[]', i + 1
+        while True:
+            t, i = _canon(s, i)
+            items.append(t)
+            if s[i] == ',':
+                i += 1
+            elif s[i] == ']':
+                return 'l[' + ','.join(items) + ']', i + 1
+            else:
+                raise MachineryError('tree syntax: ' + s[:200])
+    if c == 'd' and s[i + 1] == '{':
+        i += 2
+        items = []
+        if s[i] == '}':
+            return 'd{}', i + 1
+        while True:
+            j = s.index(':', i)
+            t, i2 = _canon(s, j + 1)
+            items.append((s[i:j], t))
+            i = i2
+            if s[i] == ',':
+                i += 1
+            elif s[i] == '}':
+                return 'd{' + ','.join('%s:%s' % kv for kv in sorted(items)) + '}', i + 1
+            else:
+                raise MachineryError('tree syntax: ' + s[:200])
+    raise MachineryError('tree syntax: ' + s[:200])
+
+
+def canon_answer(line):
+    """A driver answer / expectation with every tree value re-emitted with sorted dictionary keys: dictionaries are
+    maps (ASDF returns the keys of every dictionary alphabetically; from_dict only looks keys up)."""
+    out = []
+    for tok in line.split(' '):
+        k, eq, v = tok.partition('=')
+        if eq and v[:2] in ('d{', 'l['):
+            t, j = _canon(v, 0)
+            if j != len(v):
+                raise MachineryError('tree syntax: ' + v[:200])
+            tok = k + '=' + t
+        out.append(tok)
+    return ' '.join(out)
+
+
 def model_requests(spec, obs):
     """[(label, request line, expected response or None)]"""
     what = spec['what']
@@ -918,6 +1097,35 @@ def model_requests(spec, obs):
                     exp = 'ok w=ok img=%s r=%s out=%s' % (o['img'], o['r'], o['out'] if o['r'] == 'ok' and o['out'] else '-')
                 reqs.append(('fits-new:' + fmt, 'C16 fits %s new %s' % (what, obs['dict_tree']), exp))
                 reqs.append(('fits-old:' + fmt, 'C16 fits %s old %s' % (what, obs['dict_tree']), exp))
+        if what == 'field' and 'getstate' in obs:
+            lay, exp = obs['getstate']
+            reqs.append(('getstate', 'C16 getstate field %s %s' % (lay, obs['dict_tree']), exp))
+    if 'tree' not in obs:
+        return reqs
+    tree = obs['tree']
+    if what == 'grid':
+        # the dictionary form of a grid: readable iff the system is registered (also when from_dict raised)
+        exp = ('ok ' + obs['dict_back']) if 'dict_back' in obs else ('err ' + obs.get('dict_err', '?'))
+        if 'dict_tree' not in obs:
+            reqs.append(('dict', 'C16 dict grid %s' % tree, exp))
+        reqs.append(('gridold', 'C16 dict gridold %s' % tree, exp))
+    # the file layer: what the ASDF library stored (monitors AsdfFaithful), read status, object read
+    if what == 'grid' or 'dict_tree' in obs:
+        for fmt, o in obs['fmt'].items():
+            if o.get('raw') is None or o['w'] != 'ok':
+                continue
+            exp = 'ok w=ok file=%s r=%s out=%s' % (o['raw'], o['r'], o['out'] if o['r'] == 'ok' and o['out'] else '-')
+            fam = FAM_OF[fmt]
+            reqs.append(('file-new:' + fmt, 'C16 file %s %s new %s' % (what, fam, tree), exp))
+            if what == 'grid':
+                reqs.append(('file-old:' + fmt, 'C16 file grid %s old %s' % (fam, tree), exp))
+    # to_dict and the FITS writer as programs over the object: _weights None-ness before / after
+    wn = obs.get('wnone', {})
+    if (what == 'grid' or 'dict_tree' in obs) and 'after_dict' in wn and 'after_fits' in wn:
+        w = obs['fmt']['fits']['w']
+        exp = 'ok before=%s after=%s tree=%s wafter=%s w=%s' % (wn['before'], wn['after_dict'], tree, wn['after_fits'], w)
+        reqs.append(('todict-st', 'C16 todict-st %s good %s' % (what, tree), exp))
+        reqs.append(('todict-st-bad', 'C16 todict-st %s bad %s' % (what, tree), exp))
     return reqs
 
 
@@ -976,6 +1184,20 @@ def check_spec(ctx, spec, tmpdir, batch):
         if o['w'] != 'ok' and fmt in ('asdf', 'pkl') and obs.get('to_dict') == 'ok':
             ctx.disagree('C16 write', {'spec': spec, 'fmt': fmt, 'impl': o['w'] + ': ' + o.get('w_msg', ''),
                                        'model': 'every object with a dictionary form can be written to asdf and pickle'})
+    if g is not None:
+        ctx.count('weights-at-write:' + ('None (lazy, not materialised)' if obs.get('wnone', {}).get('before') == 'N' else 'set'))
+        if g['system'] in ('none', 'other'):
+            ctx.count('grid-class:%s:%s' % ({'none': 'base Grid', 'other': 'unregistered subclass'}[g['system']], what))
+    for fmt, o in obs['fmt'].items():
+        if o.get('expected_refusal'):
+            ctx.count('unregistered-grid:%s:written-not-readable (KeyError, as stated)' % fmt)
+        if o.get('raw') is not None:
+            ctx.count('asdf-layer-monitored:%s:%s' % (what, fmt))
+    if 'unregistered_read_ok' in obs:
+        ctx.disagree('C16 unregistered', {'spec': spec, 'impl': 'read back through ' + obs['unregistered_read_ok'],
+                                          'model': 'a grid with an unregistered coordinate system is written but not readable'})
+    if 'getstate' in obs:
+        ctx.count('getstate-layout:' + obs['getstate'][0])
     for m in obs.get('mods', []):
         ctx.count('mod:%s:%s' % (what, m))
     ctx.count('%s:modified-after-construction' % what if any(m.startswith('applied') for m in obs.get('mods', [])) else '%s:fresh' % what)
@@ -1027,8 +1249,18 @@ def run(ctx):
                 'and after every step. A refused write is not a violation but is compared with the model\'s prediction. '
                 'Model correspondence: real to_dict trees -> Lean fromDict/toDict; Lean model of the FITS image paths '
                 '(image HDU content, read result) for both fits and fits.gz files; ravel/unravel vs NumPy. '
+                'Round 4: grid classes also the base class Grid (system none) and an unregistered user subclass (system other, top-level grids only); '
+                'stream file: the tree the ASDF library hands back for every asdf file and every grid FITS file vs the model\'s ASDF layer (dictionaries as maps), '
+                'read status and object read; stream todict-st: _weights None-ness before / after to_dict and after the FITS write vs the model\'s programs over '
+                'the object (and the bad variant must be told apart exactly on lazy grids); stream getstate: the real Field.__getstate__() (shape, dtype, '
+                'Fortran flag, bytes) vs the model\'s getState. ' 
                 'Non-trivial = more than one grid point; distinct by the full description tuple.')
-    ctx.assumptions += ['asdf, astropy.io.fits and pickle store and return arrays faithfully (exercised, not proved)',
+    ctx.assumptions += ['asdf, astropy.io.fits and pickle store and return arrays faithfully (exercised, not proved); for asdf files and grid '
+                        'FITS files this is the Lean hypothesis AsdfFaithful, monitored on every file written (stream "file"): the tree '
+                        'loaded equals the tree stored up to dictionary key order and NumPy-scalar weights -> Python numbers',
+                        'grid classes are registered in Grid._coordinate_systems: a user subclass that never called '
+                        'Grid._add_coordinate_system (generated as system "other") is written by asdf/fits but read_grid raises KeyError; '
+                        'theorem grid_file_readable_iff states this exception; the check verifies it happens and does not report it',
                         'values are finite and exactly representable (no NaN/inf sent to the model)',
                         'dtype equality is taken up to byte order: FITS images come back big endian']
     rng = ctx.rng
@@ -1058,17 +1290,38 @@ def run(ctx):
     check_ravel(ctx, rng, ctx.scale(50, 1000), batch)
     out = ctx.model([b[2] for b in batch])
     old_agree = old_total = 0
+    gold_agree = gold_total = 0
+    bad_differs = bad_total = bad_lazy = 0
     for (spec, label, line, exp), resp in zip(batch, out):
         if label.startswith('fits-old'):
             old_total += 1
             old_agree += (canon_scalars(resp) == canon_scalars(exp))
             continue
+        if label == 'gridold' or label.startswith('file-old'):
+            gold_total += 1
+            gold_agree += (canon_answer(resp) == canon_answer(exp))
+            continue
+        if label == 'todict-st-bad':
+            # the variant of the model that reads the property `weights`: must be told apart by the real observations
+            # exactly on the objects whose weights were not materialised
+            bad_total += 1
+            bad_lazy += (' before=N ' in exp)
+            bad_differs += (canon_answer(resp) != canon_answer(exp))
+            if (canon_answer(resp) != canon_answer(exp)) != (' before=N ' in exp):
+                ctx.disagree('C16 todict-st-bad', {'spec': spec, 'impl': exp[:2000], 'model': resp[:2000],
+                                                   'note': 'the bad variant must differ from the code iff _weights was None'})
+            continue
         ctx.traces_validated += 1
         if label.startswith('fits-'):
             resp, exp = canon_scalars(resp), canon_scalars(exp)
+        if label.startswith('file-') or label == 'todict-st':
+            resp, exp = canon_answer(resp), canon_answer(exp)
         if resp != exp:
             ctx.disagree('C16 ' + label, {'spec': spec, 'impl': exp[:2000], 'model': resp[:2000]})
+        ctx.count('model-stream:' + label.split(':')[0])
     ctx.extra['impl_agrees_with_model_of_unrepaired_fits_paths'] = '%d/%d' % (old_agree, old_total)
+    ctx.extra['impl_agrees_with_model_of_unrepaired_grid_registry_D161'] = '%d/%d' % (gold_agree, gold_total)
+    ctx.extra['bad_to_dict_model_told_apart'] = '%d of %d objects (%d had _weights None)' % (bad_differs, bad_total, bad_lazy)
 
 
 def replay(ctx, case):
